@@ -28,8 +28,9 @@ FNQ = "CodegenCtx._generate_code_for_int_expr"
 
 
 def _strip_parens(t):
-    while isinstance(t, tuple) and t[0] == "paren":
-        t = t[1]
+    """parentheses, and a cast to int (value-preserving for the byte and integer types of the emitted code: the usual promotion made explicit)"""
+    while isinstance(t, tuple) and (t[0] == "paren" or (t[0] == "cast" and str(t[1]).strip() == "int")):
+        t = t[1] if t[0] == "paren" else t[2]
     return t
 
 
